@@ -133,6 +133,12 @@ func isReservedPythonKeyword(input string) bool {
 ******************************************************************************/
 
 func defaultValueForType(schemas ast.Schemas, typeDef ast.Type, importModule moduleImporter, defaultsOverrides *orderedmap.Map[string, any]) any {
+	return defaultValueForTypeRec(schemas, typeDef, importModule, defaultsOverrides, map[ast.RefType]struct{}{})
+}
+
+// seenDisjunctions holds the references to disjunctions being followed: a
+// disjunction can refer to itself (`A: A | string`).
+func defaultValueForTypeRec(schemas ast.Schemas, typeDef ast.Type, importModule moduleImporter, defaultsOverrides *orderedmap.Map[string, any], seenDisjunctions map[ast.RefType]struct{}) any {
 	if !typeDef.IsRef() && typeDef.Default != nil {
 		return typeDef.Default
 	}
@@ -143,7 +149,7 @@ func defaultValueForType(schemas ast.Schemas, typeDef ast.Type, importModule mod
 			return nil
 		}
 
-		return defaultValueForType(schemas, typeDef.AsDisjunction().Branches[0], importModule, nil)
+		return defaultValueForTypeRec(schemas, typeDef.AsDisjunction().Branches[0], importModule, nil, seenDisjunctions)
 	case ast.KindRef:
 		ref := typeDef.AsRef()
 		referredPkg := ref.ReferredPkg
@@ -167,7 +173,12 @@ func defaultValueForType(schemas ast.Schemas, typeDef ast.Type, importModule mod
 
 			return raw(referredPkg + "." + objectName + "." + enumName)
 		} else if found && referredObj.Type.IsDisjunction() {
-			return defaultValueForType(schemas, referredObj.Type, importModule, nil)
+			if _, cyclic := seenDisjunctions[ref]; cyclic {
+				return nil
+			}
+			seenDisjunctions[ref] = struct{}{}
+
+			return defaultValueForTypeRec(schemas, referredObj.Type, importModule, nil, seenDisjunctions)
 		}
 
 		var extraDefaults []string
